@@ -168,5 +168,38 @@ func cmdMarkers(args []string, w *bufio.Writer) {
 		}
 	}
 	res["fetch_succeeded_for"] = leaks
+	// the same through Operations.Restore and through the filesystem of an instance that shares the INDEX of the writer but
+	// holds the foreign identity: no entry (directories and empty files included) may be restored or read
+	restored := []string{}
+	sub2, _ := os.MkdirTemp(dir, "other2")
+	if other2, err := mk(h.Config, in.drive, in.meta, sub2, k2, &seams{}); err == nil {
+		for _, row := range rows {
+			if row.Deleted != 0 {
+				continue
+			}
+			n := row.Name
+			err := func() (e error) {
+				defer func() {
+					if x := recover(); x != nil {
+						e = fmt.Errorf("panic %v", x)
+					}
+				}()
+				var buf bytes.Buffer
+				return other2.ro.Restore(
+					func(p string, m iofs.FileMode) (io.WriteCloser, error) { return nopWC{&buf}, nil },
+					func(p string, m iofs.FileMode) error { return nil }, n, "", true)
+			}()
+			if err == nil {
+				restored = append(restored, "restore:"+n)
+			}
+			if row.Typeflag == int64(tar.TypeReg) {
+				r2 := &runner{h: h, in: other2, ks: k2, dir: sub2}
+				if _, rerr := r2.readAll(other2.s, n); rerr == nil {
+					restored = append(restored, "read:"+n)
+				}
+			}
+		}
+	}
+	res["restored_with_foreign_identity"] = restored
 	emit(w, res)
 }
